@@ -98,32 +98,36 @@ theorem bundleProp_rt (t ei et : Nat) (d : Bytes) (ht : t < 65536) (hei : ei < 4
 def errorMsgV (ver ln xid t c : Nat) (d : Bytes) : V :=
   .obj "ErrorMsg" [.obj "Header" [.num ver, .num Gen.openflow13.Type_Error, .num ln, .num xid], .num t, .num c, UBuffer.mk d]
 
-/-- ErrorMsg through Parse (error type other than ET_EXPERIMENTER).  The encoder does not touch Header.Length.  The decoder
+/-- ErrorMsg through Parse (error type other than ET_EXPERIMENTER).  `MarshalBinary` stores the size 12 + |d| in Header.Length (whatever `ln0` was there).  The decoder
     takes everything behind the 12 fixed bytes as the error data: with `tail` behind the message the data is `d ++ tail`;
     with the buffer holding exactly the message (`tail = []`) the value comes back. -/
-theorem errorMsg_rt (ver ln xid t c : Nat) (d : Bytes) (hver : ver < 256) (hln : ln < 65536) (hxid : xid < 4294967296)
+theorem errorMsg_rt (ver xid t c : Nat) (d : Bytes) (hver : ver < 256) (hxid : xid < 4294967296)
     (ht : t < 65536) (hte : t ≠ Gen.openflow13.ET_EXPERIMENTER) (hc : c < 65536) (hd : 12 + d.length < 65536) :
-    let v := errorMsgV ver ln xid t c d
-    let bs := [n8 ver, n8 Gen.openflow13.Type_Error] ++ be16 (n16 ln) ++ be32 (n32 xid) ++ be16 (n16 t) ++ be16 (n16 c) ++ d
-    ErrorMsg.marshalM v = .ok (bs, v) ∧
+    let bs := [n8 ver, n8 Gen.openflow13.Type_Error] ++ be16 (n16 (12 + d.length)) ++ be32 (n32 xid) ++ be16 (n16 t) ++ be16 (n16 c) ++ d
+    (∀ ln0, ErrorMsg.marshalM (errorMsgV ver ln0 xid t c d) = .ok (bs, errorMsgV ver (12 + d.length) xid t c d)) ∧
     ∀ (depth : Nat) (data : Slice) (tail : Bytes), data.WF → data.bytes = bs ++ tail →
-      parse depth data = .ok (errorMsgV ver ln xid t c (d ++ tail)) := by
-  intro v bs
+      parse depth data = .ok (errorMsgV ver (12 + d.length) xid t c (d ++ tail)) := by
+  intro bs
   have hdl : (n16 d.length).toNat = d.length := n16_toNat _ (by omega)
   refine ⟨?_, ?_⟩
-  · have hlen : ErrorMsg.lenM v = .ok ((8 : UInt16) + 2 + 2 + n16 d.length, v) := by
-      simp only [v, errorMsgV, ErrorMsg.lenM, UBuffer.lenM, UBuffer.mk, UBuffer.content, Res.bind_ok, same, Res.pure_eq]
+  · intro ln0
+    have hlen : ∀ ln', ErrorMsg.lenM (errorMsgV ver ln' xid t c d) = .ok ((8 : UInt16) + 2 + 2 + n16 d.length, errorMsgV ver ln' xid t c d) := by
+      intro ln'
+      simp only [errorMsgV, ErrorMsg.lenM, UBuffer.lenM, UBuffer.mk, UBuffer.content, Res.bind_ok, same, Res.pure_eq]
     have hto : ((8 : UInt16) + 2 + 2 + n16 d.length).toNat = 12 + d.length := by
       rw [UInt16.toNat_add, hdl]
       have : ((8 : UInt16) + 2 + 2).toNat = 12 := rfl
       rw [this]; omega
+    have hu : V.u16 ((8 : UInt16) + 2 + 2 + n16 d.length) = .num (12 + d.length) := by simp only [V.u16, hto]
     unfold ErrorMsg.marshalM
     rw [hlen]
-    simp only [Res.bind_ok, v, errorMsgV, Header.bytes, UBuffer.marshalM, UBuffer.mk, UBuffer.content, same, hto]
-    have hp : piecesLen [pCopy ([n8 ver, n8 Gen.openflow13.Type_Error] ++ be16 (n16 ln) ++ be32 (n32 xid)), pU16 t, pU16 c,
+    simp only [Res.bind_ok]
+    rw [hlen]
+    simp only [Res.bind_ok, errorMsgV, Header.setLength, hu, Header.bytes, UBuffer.marshalM, UBuffer.mk, UBuffer.content, same, hto]
+    have hp : piecesLen [pCopy ([n8 ver, n8 Gen.openflow13.Type_Error] ++ be16 (n16 (12 + d.length)) ++ be32 (n32 xid)), pU16 t, pU16 c,
         pCopy d] = 12 + d.length := by
       simp [piecesLen, pU16, pCopy, Piece.adv]; omega
-    have := fill_exact' [pCopy ([n8 ver, n8 Gen.openflow13.Type_Error] ++ be16 (n16 ln) ++ be32 (n32 xid)), pU16 t, pU16 c, pCopy d]
+    have := fill_exact' [pCopy ([n8 ver, n8 Gen.openflow13.Type_Error] ++ be16 (n16 (12 + d.length)) ++ be32 (n32 xid)), pU16 t, pU16 c, pCopy d]
       (by intro p hp; simp at hp; rcases hp with rfl | rfl | rfl | rfl <;> trivial)
     rw [hp] at this
     rw [this]
@@ -131,10 +135,10 @@ theorem errorMsg_rt (ver ln xid t c : Nat) (d : Bytes) (hver : ver < 256) (hln :
   · intro depth data tail hdw hb
     have hlenD := Slice.len_ge_of_bytes data _ _ hb
     simp only [bs, List.length_append, be16_length, be32_length, List.length_cons, List.length_nil] at hlenD
-    have hb' : data.bytes = ([n8 ver, n8 Gen.openflow13.Type_Error] ++ be16 (n16 ln) ++ be32 (n32 xid)) ++
+    have hb' : data.bytes = ([n8 ver, n8 Gen.openflow13.Type_Error] ++ be16 (n16 (12 + d.length)) ++ be32 (n32 xid)) ++
         (be16 (n16 t) ++ (be16 (n16 c) ++ (d ++ tail))) := by
       rw [hb]; simp only [bs, List.append_assoc]
-    obtain ⟨_, _, hdec⟩ := header_roundtrip ver Gen.openflow13.Type_Error ln xid hver (by decide) hln hxid
+    obtain ⟨_, _, hdec⟩ := header_roundtrip ver Gen.openflow13.Type_Error (12 + d.length) xid hver (by decide) hd hxid
     unfold parse
     obtain ⟨k, hk⟩ : ∃ k, max depth (data.cap + 1) = k + 1 := ⟨max depth (data.cap + 1) - 1, by omega⟩
     rw [hk]
@@ -146,12 +150,12 @@ theorem errorMsg_rt (ver ln xid t c : Nat) (d : Bytes) (hver : ver < 256) (hln :
       Nat.reduceEqDiff, reduceIte, if_false, if_true]
     have e8 : rd16 (data.bytes.drop 8) = some (n16 t) := by
       rw [hb']
-      have : List.drop 8 (([n8 ver, n8 Gen.openflow13.Type_Error] ++ be16 (n16 ln) ++ be32 (n32 xid)) ++
+      have : List.drop 8 (([n8 ver, n8 Gen.openflow13.Type_Error] ++ be16 (n16 (12 + d.length)) ++ be32 (n32 xid)) ++
         (be16 (n16 t) ++ (be16 (n16 c) ++ (d ++ tail)))) = be16 (n16 t) ++ (be16 (n16 c) ++ (d ++ tail)) := rfl
       rw [this]; exact rd16_be16 _ _
     have e10 : rd16 (data.bytes.drop 10) = some (n16 c) := by
       rw [hb']
-      have : List.drop 10 (([n8 ver, n8 Gen.openflow13.Type_Error] ++ be16 (n16 ln) ++ be32 (n32 xid)) ++
+      have : List.drop 10 (([n8 ver, n8 Gen.openflow13.Type_Error] ++ be16 (n16 (12 + d.length)) ++ be32 (n32 xid)) ++
         (be16 (n16 t) ++ (be16 (n16 c) ++ (d ++ tail)))) = be16 (n16 c) ++ (d ++ tail) := rfl
       rw [this]; exact rd16_be16 _ _
     obtain ⟨s, hs1, hs2, _, _⟩ := Slice.fromR_bytes data 12 (by omega)
